@@ -173,8 +173,7 @@ class Gen:
                 ps = self.params(tparams=tparams)
                 cq = " const" if in_class and r.random() < 0.3 else ""
                 st = "static " if (not cq and r.random() < 0.2) else ""
-                if st and not in_class:
-                    st = ""   # file-local functions get _ZL names: covered by the unit-test vectors
+                # (static at namespace scope: internal linkage, mangled with an 'L' before the name)
                 self.emit("%s%s%s %s(%s)%s %s" % (used, st, rt, f, ps, cq, self.body(rt)), ee + f, "function")
         if depth >= 4:
             return
@@ -205,9 +204,35 @@ class Gen:
                     self.inst.append("template struct %s%s<%s >;" % (ee, n, a))
 
 
+def all_ops_class(g):
+    """one class with every overloadable operator kind once (so that every entry of ops[] that a
+    compiler can emit is exercised in every run)"""
+    ns = g.fresh("opsns")
+    k = g.fresh("AllOps")
+    ee = "%s::%s::" % (ns, k)
+    g.emit("namespace %s {" % ns)
+    g.emit("struct %s {" % k)
+    for op, np in MEMBER_OPS:
+        ps = ", ".join(["int", "char", "long"][:np]) if np < 2 else "int, double"
+        rt = (k + " *") if op == "->" else "int"
+        g.emit("%s%s operator%s(%s) %s" % (USED, rt, op, ps, Gen.body(rt)), ee + "operator" + op, "operator")
+    g.emit("%sint operator++(int) { return 0; }" % USED, ee + "operator++", "operator")
+    g.emit("%sint operator--(int) { return 0; }" % USED, ee + "operator--", "operator")
+    g.emit("%soperator long() { return 0; }" % USED, ee + "operator(cast)", "operator")
+    for which in ("new", "new[]"):
+        g.emit("%svoid *operator %s(unsigned long n) { return 0; }" % (USED, which), ee + "operator " + which, "operator")
+    for which in ("delete", "delete[]"):
+        g.emit("%svoid operator %s(void *p) { }" % (USED, which), ee + "operator " + which, "operator")
+    g.emit("int fld_;")
+    g.emit("};")
+    g.emit("%slong double operator\"\" _w%d(long double x) { return x; }" % (USED, g.uid), "%s::operator\"\"" % ns, "operator")
+    g.emit("}")
+
+
 def cpp_source(rng, nfun):
     """returns (source text, {line number: (expected, kind)})"""
     g = Gen(rng, nfun)
+    all_ops_class(g)
     while g.ndefs < nfun:
         if rng.random() < 0.25:
             g.scope([], 0)
